@@ -315,6 +315,44 @@ def main(argv):
                     c.violation("reader-failed: %s on case %r" % (o[:80], line[:200]), {"case": line, "page": page, "impl": o[:300]})
                     continue
                 recs, trace, maps, eof = got
+                # which branches of the proofs' case splits did this case exercise (from the observed syscalls)
+                D = c.cov["distribution"]
+
+                def hit(b):
+                    D["branch/" + b] = D.get("branch/" + b, 0) + 1
+                t = line.split()
+                pg, mb = int(t[1]), int(t[2])
+                cap0 = pg * max(mb // pg + 1, 2)
+                if kind in ("R", "I") or (kind == "M" and trace):
+                    reqs = [q for q, _ in trace[1:]] if kind != "I" else []
+                    if any(q > cap0 for q in reqs):
+                        hit("ReadShift/grow")
+                    if any(r == -1 for _, r in trace):
+                        hit("PartialRead/EINTR-retry")
+                    if any(0 < r < q for q, r in trace):
+                        hit("read/short")
+                    if trace and trace[0][1] < 6:
+                        hit("ReadFactory/header-short-or-EOF")
+                    if any(len(r) > cap0 for r in recs):
+                        hit("ReadLine/record-longer-than-window")
+                if kind == "M":
+                    ms = [tuple(int(v) for v in p.split(":")) for p in maps.split(",")] if maps else []
+                    if trace:
+                        hit("MMapShift/empty-mapping-falls-back-to-read")
+                    if any(sz > cap0 for _, sz in ms):
+                        hit("MMapShift/window-doubled")
+                    if len(set(o for o, _ in ms)) > 1:
+                        hit("MMapShift/window-moved")
+                    if ms and int(t[7]) % pg:
+                        hit("MMapShift/unaligned-start-offset")
+                    if len(ms) == 1:
+                        hit("MMapShift/single-window")
+                if any(r.endswith(b"\r") for r in want) or (cr and any(p.endswith(b"\r") for p in src.split(bytes([delim]))[:-1])):
+                    hit("ReadLine/CR-stripped-or-kept")
+                if src and not src.endswith(bytes([delim])):
+                    hit("ReadLine/unterminated-tail")
+                if b"" in want:
+                    hit("ReadLine/empty-record")
                 if recs != want:
                     c.violation("records-differ: FilePiece returned %d records, the input has %d; input %r delim %d strip_cr %s: got %r want %r" % (
                         len(recs), len(want), src[:60], delim, cr, recs[:8], want[:8]),
